@@ -25,6 +25,8 @@ import os, sys, time, itertools, random, multiprocessing
 
 from common import *          # mx, Result, reset, main
 import c02_worlds as W
+import c02_rebuild as RB
+REBUILD_SRC = open(RB.__file__).read()
 
 N = "n"; F = "f"; R = "r"       # evaluation specs for one gap; an int = that single query
 
@@ -44,6 +46,8 @@ class Runner:
         self.dyn = {}           # edit prefix -> state-dependent tags of its last edit
         self.qcodep = [compile(q.probe, "<qprobe>", "eval") if q.probe else None for q in world.queries]
         self.qdyn = {}          # edit prefix -> per query state-dependent tags
+        self.rebmemo = {}       # edit prefix -> outcomes on a model rebuilt from the replay model's definitions
+        self.rebcache = {}      # description -> outcomes
         self.builds = 0
 
     def fresh(self):
@@ -99,7 +103,51 @@ class Runner:
                         self.dyn[seq + (ei,)] = tuple(eval(pc, env))
                     except Exception:
                         self.dyn[seq + (ei,)] = ()
+            self.rebmemo[seq] = self.rebuilt_outcomes(env["m"])
         return r
+
+    def rebuilt_outcomes(self, m):
+        """Second reference: the queries on a model created directly from the definitions `m` shows (None when the
+        description cannot be taken or rebuilt: then only the replay reference is used)."""
+        try:
+            d = RB.describe(m)
+        except Exception:
+            return None
+        key = repr(d)
+        if key not in self.rebcache:
+            reset()
+            mx.use_formula_error(False)
+            try:
+                m2 = RB.rebuild(mx, d, "M")
+            except Exception as e:
+                self.rebcache[key] = None
+                self.rebuild_errors = getattr(self, "rebuild_errors", 0) + 1
+                return None
+            self.builds += 1
+            env2 = {"m": m2, "mx": mx}
+            self.rebcache[key] = tuple(self.outcome(env2, qi) for qi in range(self.nq))
+        return self.rebcache[key]
+
+    def divergence(self, seq):
+        """Queries on which the edits-only replay model and the model rebuilt from its definitions disagree for
+        the first time at this prefix."""
+        seq = tuple(seq)
+        a = self.reference(seq)
+        b = self.rebmemo.get(seq)
+        if a is None or b is None:
+            return []
+        pa = self.reference(seq[:-1]) if seq else None
+        pb = self.rebmemo.get(seq[:-1]) if seq else None
+        out = []
+        for qi in range(self.nq):
+            if a[qi] != b[qi] and not (pa is not None and pb is not None and pa[qi] != pb[qi]):
+                out.append((qi, a[qi], b[qi]))
+        return out
+
+    def script_rebuild(self, seq, qi):
+        return SCRIPT_REBUILD % {"build": repr(list(self.w.build)),
+                                 "edits": repr([self.w.edits[ei].line for ei in seq]),
+                                 "query": repr(self.w.queries[qi].expr), "world": self.w.name, "rebuild": REBUILD_SRC}
 
     def edit_tags(self, seq, pos):
         return tuple(self.w.edits[seq[pos]].tags) + tuple(self.dyn.get(tuple(seq[:pos + 1]), ()))
@@ -253,6 +301,36 @@ sys.exit(1 if live != ref else 0)
 '''
 
 
+SCRIPT_REBUILD = '''# C02 replay (world %(world)s): exit 1 iff the model that got the edits (no evaluation in between) answers
+# differently from a model created directly from its current definitions.
+import sys, warnings
+warnings.filterwarnings("ignore")
+import modelx as mx
+mx.use_formula_error(False)
+BUILD = %(build)s
+EDITS = %(edits)s
+QUERY = %(query)s
+
+%(rebuild)s
+
+def out(env, expr):
+    try:
+        return ("value", repr(eval(expr, env)))
+    except Exception as e:
+        return ("raised", type(e).__name__)
+
+m = mx.new_model("M"); env = {"m": m, "mx": mx}
+for ln in BUILD + EDITS:
+    exec(ln, env)
+a = out(env, QUERY)
+d = describe(m)
+m.close()
+b = out({"m": rebuild(mx, d, "M"), "mx": mx}, QUERY)
+print(QUERY, "-> after the edits:", a, " rebuilt from the definitions:", b)
+sys.exit(1 if a != b else 0)
+'''
+
+
 # ------------------------------------------------------------------------------------------------ enumeration
 def patterns(k, nq, level):
     """Evaluation patterns for k edits (specs of gaps 0..k-1).  level 0 = core, 1 = + reverse/partial, 2 = all."""
@@ -358,6 +436,19 @@ def work(task):
                 break
             if rn.reference(seq) is None:
                 continue
+            div = rn.divergence(seq)
+            cases.append(("%s|%s|rebuilt" % (world.name, ",".join(map(str, seq))), True))
+            for qi, a, b in div:
+                tags = set(world.queries[qi].tags) | set(rn.edit_tags(seq, len(seq) - 1))
+                tags.update(rn.qdyn.get(tuple(seq[:-1]), {qi: ()})[qi])
+                tags.add("oracle:rebuilt-from-definitions")
+                ent = fails.setdefault(tuple(sorted(tags)), [0, []])
+                ent[0] += 1
+                if len(ent[1]) < 2:
+                    what = ("world %s: after the edits %s (no evaluation) the query %s gives %s; a model created "
+                            "directly from the definitions the edited model shows gives %s"
+                            % (world.name, [world.edits[ei].line for ei in seq], world.queries[qi].expr, a, b))
+                    ent[1].append((what, rn.script_rebuild(seq, qi), "%s|%s|rebuilt" % (world.name, seq)))
             for pat in pats:
                 one(seq, pat)
             done += 1
